@@ -4045,18 +4045,6 @@ static void valueFlowForwardAssign(Token* const tok,
     valueFlowForwardAssign(tok, var->nameToken(), {var}, values, init, tokenlist, errorLogger, settings);
 }
 
-// the signedness of a conversion to the type: plain char has the signedness of the platform
-static ValueType::Sign getConversionSign(const ValueType& vt, const Settings& settings)
-{
-    if (vt.type == ValueType::Type::CHAR && vt.sign == ValueType::Sign::UNKNOWN_SIGN) {
-        if (settings.platform.defaultSign == 's' || settings.platform.defaultSign == 'S')
-            return ValueType::Sign::SIGNED;
-        if (settings.platform.defaultSign == 'u' || settings.platform.defaultSign == 'U')
-            return ValueType::Sign::UNSIGNED;
-    }
-    return vt.sign;
-}
-
 static std::list<ValueFlow::Value> truncateValues(std::list<ValueFlow::Value> values,
                                                   const ValueType* dst,
                                                   const ValueType* src,
@@ -4113,7 +4101,7 @@ static std::list<ValueFlow::Value> truncateValues(std::list<ValueFlow::Value> va
         }
 
         if (value.isIntValue() && sz > 0 && sz < sizeof(MathLib::biguint))
-            value.intvalue = ValueFlow::truncateIntValue(value.intvalue, sz, getConversionSign(*dst, settings));
+            value.intvalue = ValueFlow::truncateIntValue(value.intvalue, sz, ValueFlow::getConversionSign(*dst, settings));
     }
     return values;
 }
